@@ -319,6 +319,20 @@ def doF12 (variant : String) : String :=
     let plan := finish v st
     if AL.countAll plan (1, 0) == 0 then "accepted unassigned=t1/0" else "accepted complete"
 
+/-- `cgtopics <members> <topics>`: the topics consumerGroup.balance passes on (sorted by name), or `err` when the
+    client does not know a subscribed topic -/
+def doCGTopics (msS tsS : String) : String :=
+  let ms := parseMembers msS
+  let ts := parseTopics tsS
+  let tb := mkTables ms ts []
+  let members : Members := ms.map (fun m => (tb.m m.name, m.topics.map tb.t))
+  let topics := toTopics tb ts
+  let wanted := topicsOfMembers members
+  if wanted.any (fun t => !topicExists topics t) then "err" else
+  let names := sortBy (fun (a b : String) => decide (a ≤ b)) (wanted.map tb.tName)
+  if names.isEmpty then "-" else
+  ";".intercalate (names.map (fun n => s!"{n}:{",".intercalate ((partsOf topics (tb.t n)).map toString)}"))
+
 def step (_ : Unit) (t : List String) : Unit × String :=
   match t with
   | ["rangecore", n, m, rs] => ((), doRangeCore (nat! n) (nat! m) (natList rs))
@@ -334,6 +348,7 @@ def step (_ : Unit) (t : List String) : Unit × String :=
   | ["prepop", r] => ((), doPrepop r)
   | ["moves", c, sc] => ((), doMoves c sc)
   | ["f12", v] => ((), doF12 v)
+  | ["cgtopics", ms, ts] => ((), doCGTopics ms ts)
   | _ => ((), "bad-op")
 
 end Model.Balance.Line
